@@ -127,6 +127,10 @@ func rebuildT3Request(r *core.Rand, honest []byte, nk *nameKeyInfo) [][]byte {
 		plains := [][]byte{nil, {7}, r.Bytes(100), r.Bytes(256), r.Bytes(257), append(r.Bytes(257), 0), append(r.Bytes(257), 0, 0), append(r.Bytes(257), 0xff, 0xff),
 			t3Inner(7, r.Bytes(256), nil), t3Inner(7, r.Bytes(256), make([]byte, 32)), t3Inner(7, r.Bytes(256), r.Bytes(5000)), append(t3Inner(7, r.Bytes(256), refPadOrigin("origin.example")), 1, 2, 3),
 			t3Inner(7, ff(256), refPadOrigin("origin.example")), t3Inner(7, make([]byte, 256), refPadOrigin("origin.example")), t3Inner(7, r.Bytes(256), refPadOrigin(""))}
+		// origin names that mean something to code which formats, truncates or logs text (none is registered)
+		for _, name := range HostileNames() {
+			plains = append(plains, t3Inner(7, r.Bytes(256), refPadOrigin(name)))
+		}
 		for _, pt := range plains {
 			ct, _, err := nk.seal(r, p.RequestKey, pt)
 			if err != nil {
